@@ -85,7 +85,17 @@ pub fn load_keys(path: &std::path::Path) -> Result<Vec<TKey>, String> {
 			let kp = if f[0].starts_with("remote-") {
 				jitter_remote(&pkcs8, &pk_raw, alg)?
 			} else if f[1] == "PKCS_RSA_SHA384" || f[1] == "PKCS_RSA_SHA512" {
-				let pkd = pki_types::PrivateKeyDer::try_from(pkcs8.clone()).map_err(|e| e.to_string())?;
+				// under aws-lc-rs, key b arrives in its traditional PKCS#1 encoding (which ring cannot read):
+				// the same key and the same requested algorithm must give the same output in both back ends
+				#[cfg(all(feature = "aws", feature = "ossl"))]
+				let doc: Vec<u8> = if f[0] == "rsa2048-b" {
+					crate::ossl::load_private(&pkcs8)?.rsa().and_then(|r| r.private_key_to_der()).map_err(|e| e.to_string())?
+				} else {
+					pkcs8.clone()
+				};
+				#[cfg(not(all(feature = "aws", feature = "ossl")))]
+				let doc: Vec<u8> = pkcs8.clone();
+				let pkd = pki_types::PrivateKeyDer::try_from(doc).map_err(|e| e.to_string())?;
 				KeyPair::from_der_and_sign_algo(&pkd, alg).map_err(|e| format!("{}: {}", f[0], e))?
 			} else {
 				KeyPair::try_from(pkcs8.as_slice()).map_err(|e| format!("{}: {}", f[0], e))?
